@@ -1,6 +1,25 @@
 import Tahoe.Codec.Lemmas
 import Tahoe.Codec.Instances
-/-! C36 — erasure coding recovers from any k blocks (property theorems). -/
+import Tahoe.Codec.LemmasCall
+import Tahoe.Codec.LemmasRS
+/-! C36 — erasure coding recovers from any k blocks (property theorems).
+
+## Coverage of the statement
+
+Statement (properties.jsonl): "For every encoding with k <= N <= 256, any k distinct blocks produced
+for a segment (including a padded tail segment) decode back to that segment."
+
+| clause | where it is proved for the model |
+|---|---|
+| for every encoding with k ≤ N ≤ 256 (the codec objects accept exactly these parameters, no size bound on the segment) | `immutable_any_k_blocks_decode`, `mutable_any_k_blocks_decode` (all setups and `encode` succeed for every 0 < k ≤ n ≤ 256, every size); what the code does outside (k = 0, k > N, N > 256, segment size not a multiple of k): exception classes — correspondence only |
+| blocks *produced for a segment*: n blocks, each ⌈len/k⌉ bytes, from k zero-padded pieces | `pieces_are_padded_segment`, `gather_eq_chop`, the `blocks.length = n ∧ Uniform …` conjuncts of the two path theorems |
+| *any* k of them, *distinct*, in any order, with surplus | `any_k_blocks_decode` (≥ k supplied, any order), `arrival_order_irrelevant`; immutable path: exactly k (`CRSDecoder.decode` refuses more — correspondence shows the AssertionError); mutable path: ≥ k, first k kept |
+| the caller hands the codec a consistent (id, block) pairing and the right decoder (k, N, padded size) for every arrival order / superset | `decode_paths_factor_through_selection`, `immutable_hands_paired_blocks`, `mutable_hands_paired_prefix`, `immutable_decoder_matches_encoder`, `mutable_decoder_matches_encoder`; tied to the real calls by recording the arguments of `CRSDecoder.decode` (harness `call=` field) |
+| including a padded tail segment (own padded size / codec parameters, trim to the real size) | the tail branches of the two path theorems; `tail_padding_sizes`, `full_segment_sizes` |
+| decode back to *that segment* (exact bytes, padding removed) | conclusions `… = .ok data` / `= seg` of the three main theorems |
+| the erasure code itself recovers (zfec, outside /repo) | **assumption** `MDS` / `RS256_MDS`. Proved: `mds_instances` (replication all n, identity all k, XOR parity 2-of-3). For zfec's own GF(2^8) matrices: `rs256_generator_small` — every square submatrix of the generator for N ≤ 5 is inverted by the decoding matrix (kernel-evaluated), the 256 evaluation points are distinct, every non-zero byte has its inverse; the step from that coefficient identity to blocks of bytes (bilinearity of `gfMul` over XOR) and N > 5 are **not proved**: correspondence (byte-exact with zfec, incl. its matrices) + monitor sampling |
+| Deferred / thread-pool delivery of the result; AES of the mutable path | not covered (outside the model; exercised by the harness) |
+-/
 namespace Tahoe.C36
 open Tahoe.Codec
 
@@ -187,6 +206,132 @@ theorem mutable_any_k_blocks_decode (fec : Nat → Nat → Code) (seg0 datalengt
       simp only [hjoin, dseg, ← hlen]
       rw [take_padTo]
 
+/-! ### the caller contract: which (ids, blocks) pairing and which decoder the callers hand over -/
+
+/-- Both `_decode_blocks` methods are exactly: caller-side selection (`immCodecCall` /
+`mutCodecCall`), then `CRSDecoder.decode` on what was selected, then join / length check / trim.
+Nothing else of the supplied dict reaches the codec. -/
+theorem decode_paths_factor_through_selection (fec : Nat → Nat → Code) :
+    (∀ k n segSize sz segnum blocks,
+      immDecodeBlocks fec k n segSize sz segnum blocks =
+        match immCodecCall k n segSize sz segnum blocks with
+        | .error e => .error e
+        | .ok (codec, shares, ids) =>
+          match decDecode fec codec shares ids with
+          | .error e => .error e
+          | .ok buffers =>
+            let tail := segnum + 1 == sz.numSegments
+            if (join buffers).length != (if tail then sz.tailSegmentPadded else segSize) then
+              .error "AssertionError"
+            else .ok (if tail then (join buffers).take sz.tailSegmentSize else join buffers)) ∧
+    (∀ d segnum blocks,
+      mutDecodeBlocks fec d segnum blocks =
+        match mutCodecCall d segnum blocks with
+        | .error e => .error e
+        | .ok (codec, shares, ids) =>
+          match decDecode fec codec shares ids with
+          | .error e => .error e
+          | .ok buffers =>
+            .ok ((join buffers).take (if segnum + 1 == d.numSegments then d.tailDataSize else d.segSize))) :=
+  ⟨immDecodeBlocks_factors fec, mutDecodeBlocks_factors fec⟩
+
+/-- **Immutable selection is a consistent pairing**, for every arrival order of the dict: the id
+list and the block list handed to the codec are the two projections of the supplied `(id, block)`
+items (position `i` of one labels position `i` of the other), and the decoder is the one for this
+node's own `(size, k, N)` — the tail segment gets `tail_segment_padded`, never another file's `N`. -/
+theorem immutable_hands_paired_blocks {k n segSize : Nat} {sz : ImmSizes} {segnum : Nat}
+    {blocks : List (Nat × Block)} {p : DecParams} {shares : List Block} {ids : List Nat}
+    (h : immCodecCall k n segSize sz segnum blocks = .ok (p, shares, ids)) :
+    ids.zip shares = blocks ∧ ids.length = shares.length ∧ p.k = k ∧ p.n = n ∧
+    p.dataSize = (if segnum + 1 == sz.numSegments then sz.tailSegmentPadded else segSize) ∧
+    p.shareSize = divCeil p.dataSize k := by
+  obtain ⟨hs, hi, hp⟩ := immCodecCall_inv h
+  subst hs; subst hi; subst hp
+  exact ⟨zip_map_fst_snd blocks, by simp, rfl, rfl, rfl, rfl⟩
+
+example : immCodecCall 2 3 4 ⟨3, 4, 2, 2, 2⟩ 1 [(2, [9, 9]), (0, [1, 2])] =
+    .ok (⟨4, 2, 3, 2, 2, 2⟩, [[9, 9], [1, 2]], [2, 0]) := by decide
+
+/-- **Mutable selection is a consistent pairing of a prefix**, for every arrival order and every
+superset: ids and blocks are cut by the same slice, so what reaches the codec is the first `k`
+supplied `(id, block)` items, still paired; the surplus is dropped from both lists alike. -/
+theorem mutable_hands_paired_prefix {d : MutDecoder} {segnum : Nat} {blocks : List (Nat × Block)}
+    {p : DecParams} {shares : List Block} {ids : List Nat}
+    (h : mutCodecCall d segnum blocks = .ok (p, shares, ids)) :
+    ids.zip shares = blocks.take d.k ∧ ids.length = d.k ∧ shares.length = d.k ∧
+    (ids.zip shares).Sublist blocks ∧
+    p = (if segnum + 1 == d.numSegments then d.tailDecoder else d.segDecoder) := by
+  obtain ⟨hle, hs, hi, hp⟩ := mutCodecCall_inv h
+  subst hs; subst hi
+  have hz : ((blocks.map (·.1)).take d.k).zip ((blocks.map (·.2)).take d.k) = blocks.take d.k := by
+    rw [← List.map_take, ← List.map_take]; exact zip_map_fst_snd _
+  refine ⟨hz, by simp; omega, by simp; omega, ?_, hp⟩
+  rw [hz]; exact List.take_sublist _ _
+
+example : mutCodecCall ⟨2, 3, 4, 1, 3, 4, ⟨4, 2, 3, 2, 2, 2⟩, ⟨4, 2, 3, 2, 2, 2⟩⟩ 0
+      [(2, [9, 9]), (0, [1, 2]), (1, [3, 4])] =
+    .ok (⟨4, 2, 3, 2, 2, 2⟩, [[9, 9], [1, 2]], [2, 0]) := by decide
+
+/-- **Immutable: the decoder used for a segment has the parameters of the encoder that produced
+it** (same `k`, same `N`, same padded data size, same block size) — full and tail segments. -/
+theorem immutable_decoder_matches_encoder (fileSize k n segSize segnum : Nat)
+    (hk : 0 < k) (hkn : k ≤ n) (hn : n ≤ 256) (hs : 0 < segSize) (hdiv : segSize % k = 0)
+    {e : ImmEncoder} {z : ImmSizes} {blocks : List (Nat × Block)} {p : DecParams}
+    {shares : List Block} {ids : List Nat}
+    (he : immEncoderSetup fileSize k n segSize = .ok e) (hz : calculateSizes fileSize k segSize = .ok z)
+    (hc : immCodecCall k n segSize z segnum blocks = .ok (p, shares, ids)) :
+    p.k = (if segnum + 1 == e.numSegments then e.tailCodec else e.codec).k ∧
+    p.n = (if segnum + 1 == e.numSegments then e.tailCodec else e.codec).n ∧
+    p.dataSize = (if segnum + 1 == e.numSegments then e.tailCodec else e.codec).dataSize ∧
+    p.shareSize = (if segnum + 1 == e.numSegments then e.tailCodec else e.codec).shareSize := by
+  rw [immEncoderSetup_ok fileSize hk hkn hn hs hdiv] at he
+  rw [calculateSizes_ok fileSize hk hs hdiv] at hz
+  cases he; cases hz
+  obtain ⟨-, -, hp⟩ := immCodecCall_inv hc
+  subst hp
+  by_cases ht : (segnum + 1 == divCeil fileSize segSize) = true
+  · simp [ht]
+  · simp [ht]
+
+/-- **Mutable: decoder and encoder of a segment agree** on `k`, `N` and the block size, although the
+publisher builds its tail encoder on the unpadded tail size and the retriever on the padded one. -/
+theorem mutable_decoder_matches_encoder (seg0 datalength k n segnum : Nat) (hk : 0 < k)
+    {e : MutEncoder} {d : MutDecoder} {blocks : List (Nat × Block)} {p : DecParams}
+    {shares : List Block} {ids : List Nat}
+    (he : mutPublishSetup seg0 datalength k n = .ok e)
+    (hd : mutRetrieveSetup e.segSize datalength k n = .ok d)
+    (hc : mutCodecCall d segnum blocks = .ok (p, shares, ids)) :
+    p.k = (if segnum + 1 == e.numSegments then e.tailFec else e.fec).k ∧
+    p.n = (if segnum + 1 == e.numSegments then e.tailFec else e.fec).n ∧
+    p.shareSize = (if segnum + 1 == e.numSegments then e.tailFec else e.fec).shareSize := by
+  obtain ⟨-, -, enum, etail, fk, fn, fss, tk, tn, tss⟩ := mutPublishSetup_spec he
+  obtain ⟨-, -, dnum, -, sk, sn, tdk, tdn⟩ := mutRetrieveSetup_spec hd
+  obtain ⟨ds, dt⟩ := mutRetrieveSetup_sizes hk hd
+  obtain ⟨-, -, -, hp⟩ := mutCodecCall_inv hc
+  have hnum : d.numSegments = e.numSegments := by
+    rw [dnum, enum]
+    by_cases h1 : e.segSize = 0 <;> by_cases h2 : datalength = 0 <;> simp [h1, h2, divCeil]
+  subst hp
+  rw [hnum]
+  by_cases hl : (segnum + 1 == e.numSegments) = true
+  · simp only [hl, if_true]; exact ⟨by rw [tdk, tk], by rw [tdn, tn], by rw [dt, tss, etail]⟩
+  · simp only [hl, Bool.false_eq_true, if_false]; exact ⟨by rw [sk, fk], by rw [sn, fn], by rw [ds, fss]⟩
+
+/-- **Arrival order and surplus are irrelevant**: any two supplies (different orders, different
+supersets, different `k`-subsets) of genuine blocks with distinct ids decode to the same bytes. -/
+theorem arrival_order_irrelevant (c : Code) (k n : Nat) (hk : 0 < k) (hmds : MDS c k n) (seg : Block)
+    (s1 s2 : List (Nat × Block)) (h1 : k ≤ s1.length) (h2 : k ≤ s2.length)
+    (n1 : (s1.map (·.1)).Nodup) (n2 : (s2.map (·.1)).Nodup)
+    (g1 : ∀ p ∈ s1, (encodeSegment c k seg)[p.1]? = some p.2)
+    (g2 : ∀ p ∈ s2, (encodeSegment c k seg)[p.1]? = some p.2) :
+    decodeSegment c k seg.length s1 = decodeSegment c k seg.length s2 := by
+  rw [any_k_blocks_decode c k n hk hmds seg s1 h1 n1 g1, any_k_blocks_decode c k n hk hmds seg s2 h2 n2 g2]
+
+example : decodeSegment (xorParity 2) 2 5 [(2, [5, 7, 3]), (0, [1, 2, 3]), (1, [4, 5, 0])] =
+    decodeSegment (xorParity 2) 2 5 [(1, [4, 5, 0]), (2, [5, 7, 3])] :=
+  arrival_order_irrelevant (xorParity 2) 2 3 (by decide) xorParity2_mds [1, 2, 3, 4, 5] _ _
+    (by decide) (by decide) (by decide) (by decide) (by decide) (by decide)
+
 /-! ### sizes -/
 
 /-- padded tail size: a multiple of `k`, at least the tail, less than `k` more; and the three
@@ -252,6 +397,38 @@ set_option maxRecDepth 100000 in
 example : encodeSegment (rs256 3 5) 3 [0x61, 0x62, 0x63] = [[0x61], [0x62], [0x63], [0x75], [0x09]] ∧
     decodeSegment (rs256 3 5) 3 3 [(4, [0x09]), (0, [0x61]), (3, [0x75]), (1, [0x62])] = [0x61, 0x62, 0x63] := by
   decide
+
+/-- **Coefficient-level fragment of `RS256_MDS`, kernel-checked on the transcription of zfec's
+matrices.** For every N ≤ 5 and every non-empty set of share numbers below N (k = its size): the
+decoding matrix times the selected rows of the systematic encoding matrix is the identity — i.e.
+every k×k submatrix of the generator is invertible, the content of the MDS law at the level of
+coefficients. Also: the 256 evaluation points are pairwise distinct, and every non-zero field
+element is inverted by `gfInv`.
+Full statement still assumed (`RS256_MDS`): the same for all N ≤ 256 *and* lifted from coefficients
+to blocks of bytes; missing are distributivity/associativity of `gfMul` over XOR for all bytes
+(2^24 cases by brute force — a structural proof over the bit decomposition is needed) and the
+Lagrange/Vandermonde argument replacing enumeration. -/
+theorem rs256_generator_small :
+    (∀ n, 1 ≤ n → n ≤ 5 → ∀ mask, mask < 2 ^ n → submatrixInverts n mask = true) ∧
+    (rsPoints 256).Nodup ∧
+    (∀ a, 0 < a → a < 256 → gfMul (UInt8.ofNat a) (gfInv (UInt8.ofNat a)) = 1) := by
+  refine ⟨?_, rsPoints_nodup, ?_⟩
+  · intro n h1 h5 mask hm
+    match n, h1, h5 with
+    | 1, _, _ => exact submatrixInverts_1 mask hm
+    | 2, _, _ => exact submatrixInverts_2 mask hm
+    | 3, _, _ => exact submatrixInverts_3 mask hm
+    | 4, _, _ => exact submatrixInverts_4 mask hm
+    | 5, _, _ => exact submatrixInverts_5 mask hm
+  · intro a h0 ha
+    rcases (gf256_units a ha).2.2.2.2 with h | h
+    · omega
+    · exact h
+
+/-- what the statement says on one instance: shares {1, 3, 4} of a 3-of-5 encoding -/
+example : idsOfMask 5 0b11010 = [1, 3, 4] ∧
+    matMul (decMatrix 3 [1, 3, 4]) (selectRows (encMatrix 3 5) [1, 3, 4]) 3 = identityMatrix 3 := by
+  decide +kernel
 
 /-- the assumption is satisfiable by *some* code for the shapes proved: the instances -/
 theorem mds_instances :
